@@ -259,25 +259,94 @@ theorem nonpart_contributes (fs : List Fault) (x : Nat) (hx : isPartF fs x = fal
   | none => simp [biC, dirC, hk]
   | some k => cases k <;> simp_all [biC, dirC]
 
-/-- `Network.heal_partition()` ends every open partition window and nothing else -/
-theorem winv_healall (fs : List Fault) (w : WS) (act : List Nat) (h : WInv fs w act) :
-    WInv fs w.healAll (act.filter fun f => !isPartF fs f) := by
-  have hz : ∀ x, (!isPartF fs x) = false → isPartF fs x = true := by intro x hx; simpa using hx
+theorem partOnF_isPartF (fs : List Fault) (k x : Nat) (h : partOnF fs k x = true) :
+    isPartF fs x = true := by
+  unfold partOnF at h
+  unfold isPartF kindOf
+  cases hx : fs[x]? with
+  | none => simp [hx] at h
+  | some ft =>
+    simp only [hx, Bool.and_eq_true] at h
+    simp only [Option.map_some]
+    cases hk : ft.kind <;> simp_all [isPartK]
+
+/-- the members of a partition are nodes of the network it resolves to -/
+theorem netWF_members (fs : List Fault) (hn : netWF fs = true) (x : Nat) (ft : Fault)
+    (hx : fs[x]? = some ft) (asym : Bool) (A B : List Nat) (hk : ft.kind = .part asym A B) :
+    ∀ y, (y ∈ A ∨ y ∈ B) → netOf y = ft.net := by
+  intro y hy
+  have hm : ft ∈ fs := List.mem_of_getElem? hx
+  have h1 := List.all_eq_true.mp hn ft hm
+  simp only [hk] at h1
+  have h2 := List.all_eq_true.mp h1 y (List.mem_append.mpr hy)
+  simpa using h2
+
+/-- a partition of network `k` contributes nothing to pairs whose first node is on another network -/
+theorem partOn_other_net (fs : List Fault) (hn : netWF fs = true) (k x a b : Nat)
+    (h : partOnF fs k x = true) (ha : netOf a ≠ k) : biC fs x a b = 0 ∧ dirC fs x a b = 0 := by
+  unfold partOnF at h
+  cases hx : fs[x]? with
+  | none => simp [hx] at h
+  | some ft =>
+    simp only [hx, Bool.and_eq_true, beq_iff_eq] at h
+    cases hk : ft.kind with
+    | part asym A B =>
+      have hmem := netWF_members fs hn x ft hx asym A B hk
+      have hA : a ∉ A := fun hm => ha ((hmem a (Or.inl hm)).trans h.2)
+      have hB : a ∉ B := fun hm => ha ((hmem a (Or.inr hm)).trans h.2)
+      cases asym <;> simp [biC, dirC, kindOf, hx, hk, hA, hB]
+    | _ => simp [hk, isPartK] at h
+
+/-- a window that is not a partition of network `k` contributes nothing to that network's pairs -/
+theorem not_partOn_this_net (fs : List Fault) (hn : netWF fs = true) (k x a b : Nat)
+    (h : partOnF fs k x = false) (ha : netOf a = k) : biC fs x a b = 0 ∧ dirC fs x a b = 0 := by
+  unfold partOnF at h
+  cases hx : fs[x]? with
+  | none => simp [biC, dirC, kindOf, hx]
+  | some ft =>
+    simp only [hx] at h
+    cases hk : ft.kind with
+    | part asym A B =>
+      have hne : ft.net ≠ k := by simpa [hk, isPartK] using h
+      have hmem := netWF_members fs hn x ft hx asym A B hk
+      have hA : a ∉ A := fun hm => hne ((hmem a (Or.inl hm)).symm.trans ha)
+      have hB : a ∉ B := fun hm => hne ((hmem a (Or.inr hm)).symm.trans ha)
+      cases asym <;> simp [biC, dirC, kindOf, hx, hk, hA, hB]
+    | _ => simp [biC, dirC, kindOf, hx, hk]
+
+/-- `heal_partition()` on network `k` ends every open partition window of that network and nothing
+    else: the other networks' partitions, crash state, latency, loss and capacity stay -/
+theorem winv_healall (fs : List Fault) (w : WS) (act : List Nat) (k : Nat) (hn : netWF fs = true)
+    (h : WInv fs w act) :
+    WInv fs (w.healAll k (partOnF fs k)) (act.filter fun f => !partOnF fs k f) := by
+  have hz : ∀ x, (!partOnF fs k x) = false → isPartF fs x = true := by
+    intro x hx; exact partOnF_isPartF fs k x (by simpa using hx)
+  have hon : ∀ x, (!partOnF fs k x) = false → partOnF fs k x = true := by intro x hx; simpa using hx
   constructor
   · intro e
     show w.depth e = _
     rw [h.depth e]; unfold sumOver
     exact (sum_map_filter_zero _ _ (fun x hx => (part_contributes fs x (hz x hx)).1 e) act).symm
   · intro a b
-    show 0 = _
+    show (if netOf a = k then 0 else w.bi a b) = _
     unfold sumOver
-    exact (sum_map_zero _ _ (fun x hx =>
-      (nonpart_contributes fs x (by simpa using (List.mem_filter.mp hx).2) a b).1)).symm
+    by_cases ha : netOf a = k
+    · rw [if_pos ha]
+      exact (sum_map_zero _ _ (fun x hx =>
+        (not_partOn_this_net fs hn k x a b (by simpa using (List.mem_filter.mp hx).2) ha).1)).symm
+    · rw [if_neg ha, h.bi a b]; unfold sumOver
+      exact (sum_map_filter_zero _ _
+        (fun x hx => (partOn_other_net fs hn k x a b (hon x hx) ha).1) act).symm
   · intro a b
-    show 0 = _
+    show (if netOf a = k then 0 else w.dir a b) = _
     unfold sumOver
-    exact (sum_map_zero _ _ (fun x hx =>
-      (nonpart_contributes fs x (by simpa using (List.mem_filter.mp hx).2) a b).2)).symm
+    by_cases ha : netOf a = k
+    · rw [if_pos ha]
+      exact (sum_map_zero _ _ (fun x hx =>
+        (not_partOn_this_net fs hn k x a b (by simpa using (List.mem_filter.mp hx).2) ha).2)).symm
+    · rw [if_neg ha, h.dir a b]; unfold sumOver
+      exact (sum_map_filter_zero _ _
+        (fun x hx => (partOn_other_net fs hn k x a b (hon x hx) ha).2) act).symm
   · show w.lat = _
     rw [h.lat]
     exact (filterMap_filter_none _ _ (fun x hx => (part_contributes fs x (hz x hx)).2.1) act).symm
@@ -287,10 +356,10 @@ theorem winv_healall (fs : List Fault) (w : WS) (act : List Nat) (h : WInv fs w 
   · show w.capf = _
     rw [h.capf]
     exact (filterMap_filter_none _ _ (fun x hx => (part_contributes fs x (hz x hx)).2.2.2) act).symm
-  · show [] = _
-    rw [List.filter_filter]
-    symm
-    apply List.filter_eq_nil_iff.mpr
-    intro x _; simp
+  · show w.live.filter (fun f => !partOnF fs k f) = _
+    rw [h.live, List.filter_filter, List.filter_filter]
+    apply List.filter_congr
+    intro x _
+    exact Bool.and_comm _ _
 
 end HappyModel.C06
